@@ -182,7 +182,12 @@ func (fc *FnCtx) objVal(st *State, obj types.Object) Val {
 			return v
 		}
 	case *types.Var:
-		return fc.readKey(st, objKey(o), o.Type())
+		v := fc.readKey(st, objKey(o), o.Type())
+		if v.S == SInt && fc.w.sentinelErrors()[objKey(o)] {
+			// a package-level `var ErrX = errors.New(...)` that nothing ever assigns: never nil
+			st.assume = append(st.assume, "(not (= "+v.T+" 0))")
+		}
+		return v
 	case *types.Nil:
 		return Val{S: SNil, T: "0"}
 	case *types.Func:
@@ -374,7 +379,9 @@ func (fc *FnCtx) concat(st *State, a, b Val) Val {
 }
 
 
-func (fc *FnCtx) safetyOn() bool { return fc.scope == nil && fc.contract != nil && !fc.contract.Extern }
+func (fc *FnCtx) safetyOn() bool {
+	return fc.scope == nil && fc.contract != nil && !fc.contract.Extern && fc.noSafety == 0
+}
 
 func (fc *FnCtx) trIndex(st *State, x *ast.IndexExpr) Val {
 	base := fc.tr(st, x.X)
